@@ -154,6 +154,18 @@ impl<S: WebSocket, T: TimestampProvider> Task<S, T> {
                 (true, Ok(()))
             }
         };
+        // The receive side may be the first to notice that the `Multiplexor` was dropped
+        // (its channels are closed). That is still a local drop, not a failure of the
+        // connection: what was queued before the drop is flushed as usual.
+        let (should_drain_frame_rx, res) = if !should_drain_frame_rx
+            && self.con_recv_stream_tx.is_closed()
+            && matches!(res, Err(Error::Closed | Error::SendStreamToClient))
+        {
+            debug!("mux dropped (noticed by the receive side)");
+            (true, Ok(()))
+        } else {
+            (should_drain_frame_rx, res)
+        };
         self.wind_down(should_drain_frame_rx, res.is_ok(), tx_msg_rx, dropped_flows_rx)
             .await;
         res
